@@ -11,7 +11,7 @@ from engine.expr import Ex, norm, show, walk, alts
 from engine.intervals import dominating_facts
 from engine.mir import AnchorLost, callee_matches
 from engine.paths import paths, decided, called, outcome
-from engine.query import calls_matching, where, aggregates, ret_alts, find_switch_on, field_assignments, enum_variants
+from engine.query import self_rooted, calls_matching, where, aggregates, ret_alts, find_switch_on, field_assignments, enum_variants
 from rules.C01 import ZW
 from rules.shared_codec import tokens
 from rules.shared_count import count_rule
@@ -247,7 +247,7 @@ def const_rules(facts, rep):
     ex = Ex(up)
     asg = {}
     for bi, si, s in up.stmts():
-        if s["k"] == "assign" and s["place"]["l"] == 1 and s["place"]["p"]:
+        if s["k"] == "assign" and s["place"]["p"] and self_rooted(up, s["place"], ex, (bi, si)):
             fp = [p.get("n") for p in s["place"]["p"] if p["k"] == "field"]
             asg[fp[-1]] = norm(ex.rvalue(s["rv"], (bi, si)))
     k0, k1, k2 = asg.get("key_0"), asg.get("key_1"), asg.get("key_2")
